@@ -7,7 +7,10 @@ use super::async_net::AsyncTokioStream;
 #[cfg(feature = "tracing")]
 use super::escape_crlf;
 #[allow(deprecated)]
-use super::{async_net::AsyncNetworkStream, ClientCodec, TlsParameters};
+use super::{
+    async_net::{tls_handshake_timed_out, AsyncNetworkStream},
+    ClientCodec, TlsParameters,
+};
 use crate::{
     transport::smtp::{
         authentication::{Credentials, Mechanism},
@@ -63,6 +66,26 @@ impl IoDeadline {
                     Err(_) => Err(io::Error::new(io::ErrorKind::TimedOut, "timed out")),
                 }
             }
+        }
+    }
+}
+
+impl IoDeadline {
+    /// The TLS handshake after STARTTLS is bounded like any other exchange
+    async fn run_handshake(
+        self,
+        handshake: impl Future<Output = Result<(), Error>>,
+    ) -> Result<(), Error> {
+        match self {
+            IoDeadline::None => handshake.await,
+            #[cfg(feature = "tokio1")]
+            IoDeadline::Tokio1(timeout) => tokio1_crate::time::timeout(timeout, handshake)
+                .await
+                .unwrap_or_else(|_| Err(tls_handshake_timed_out())),
+            #[cfg(feature = "async-std1")]
+            IoDeadline::AsyncStd1(timeout) => async_std::future::timeout(timeout, handshake)
+                .await
+                .unwrap_or_else(|_| Err(tls_handshake_timed_out())),
         }
     }
 }
@@ -269,7 +292,10 @@ impl AsyncSmtpConnection {
                     "unexpected data after the reply to STARTTLS",
                 ));
             }
-            self.stream.get_mut().upgrade_tls(tls_parameters).await?;
+            let deadline = self.deadline;
+            deadline
+                .run_handshake(self.stream.get_mut().upgrade_tls(tls_parameters))
+                .await?;
             #[cfg(feature = "tracing")]
             tracing::debug!("connection encrypted");
             // Send EHLO again
